@@ -26,6 +26,15 @@ VERIF = os.path.dirname(os.path.dirname(os.path.abspath(__file__)))
 NPROC = int(os.environ.get('VERIF_NPROC', '16'))
 
 
+def outdir(kind):
+    """evidence/ and replays/ belong to runs against /repo itself; runs against a scratch tree
+    (VERIF_REPO_ROOT, sensitivity protocol) write under .cache/scratch-<kind>/ instead."""
+    root = os.path.abspath(os.environ.get('VERIF_REPO_ROOT', '/repo'))
+    d = os.path.join(VERIF, kind) if root == '/repo' else os.path.join(VERIF, '.cache', 'scratch-' + kind)
+    os.makedirs(d, exist_ok=True)
+    return d
+
+
 # --------------------------------------------------------------------------- basic types
 
 class Violation(Exception):
@@ -299,7 +308,6 @@ def run_property(prop, mod_name, tier, seed):
     out = []
     harness = []
     nviol = 0
-    os.makedirs(os.path.join(VERIF, 'replays'), exist_ok=True)
     seen_known = {}
     for c in clauses:
         a = per[c.name]
@@ -307,7 +315,7 @@ def run_property(prop, mod_name, tier, seed):
             harness.append('clause %s (%d shards): %s' % (c.name, len(a['errors']), e[-1500:]))
         for f in sorted(a['failures'], key=lambda f: len(jdump(f['case'])))[:1]:
             nviol += 1
-            path = os.path.join(VERIF, 'replays', '%s-%s-%d.json' % (prop, c.name, seed))
+            path = os.path.join(outdir('replays'), '%s-%s-%d.json' % (prop, c.name, seed))
             with open(path, 'w') as fh:
                 json.dump(dict(property=prop, clause=c.name, case=f['case'], detail=f['detail'],
                                key=f['key'], seed=seed, tier=tier), fh, indent=1, default=_jdefault)
@@ -317,7 +325,7 @@ def run_property(prop, mod_name, tier, seed):
             seen_known[k] = seen_known.get(k, 0) + v
         # non-vacuity
         ev = a['evaluations']
-        if not a['failures'] and not a['errors'] and ev > 0 and a['skipped_budget'] < ev:
+        if not a['failures'] and not a['errors'] and ev >= 500 and a['skipped_budget'] < ev:
             for lab, share in c.min_share.items():
                 got = a['labels'].get(lab, 0) / ev
                 if got < share:
@@ -363,8 +371,7 @@ def run_property(prop, mod_name, tier, seed):
     ev = dict(property_id=prop, tier=tier, seed=int(seed), level='exploration', coverage=cov,
               assumptions=list(getattr(mod, 'ASSUMPTIONS', [])), wall_s=round(time.time() - t0, 2),
               violations=nviol)
-    os.makedirs(os.path.join(VERIF, 'evidence'), exist_ok=True)
-    with open(os.path.join(VERIF, 'evidence', prop + '.json'), 'w') as fh:
+    with open(os.path.join(outdir('evidence'), prop + '.json'), 'w') as fh:
         json.dump(ev, fh, indent=1, default=_jdefault)
 
     for line in out:
